@@ -22,7 +22,7 @@ ID = 'C03'
 HARNESS_BIN = None
 RUN_MODULE = 'Run.C03'
 REPO_BINS = ['sccache']
-THEOREMS = ['C03_hit_after_store', 'C03_hit_after_store_within_capacity', 'C03_restore_any_mount_layout', 'C03_damaged_entry_replaced', 'C03_key_ignores_server_env', 'C03_failed_probe_leaves_no_trace', 'C03_key_ignores_unhashed', 'C03_key_ignores_output', 'C03_key_ignores_env',
+THEOREMS = ['C03_hit_after_store', 'C03_hit_after_store_within_capacity', 'C03_restore_any_mount_layout', 'C03_damaged_entry_replaced', 'C03_key_ignores_server_env', 'C03_failed_probe_leaves_no_trace', 'C03_response_implies_stored', 'C03_key_ignores_unhashed', 'C03_key_ignores_output', 'C03_key_ignores_env',
             'C03_reopen_keeps_everything', 'C03_restart_preserves']
 ASSUMPTIONS = [
     'the hash is an arbitrary function key_of of the fingerprint (record of the hashed request components); '
@@ -60,6 +60,8 @@ HASHED_VARS = {'c': ['SCCACHE_C_CUSTOM_CACHE_BUSTER', 'SDKROOT'], 'rustc': ['CAR
 PP_ALLOW = ['SCCACHE_C_CUSTOM_CACHE_BUSTER', 'CPATH', 'C_INCLUDE_PATH', 'CPLUS_INCLUDE_PATH', 'OBJC_INCLUDE_PATH',
             'OBJCPLUS_INCLUDE_PATH']          # preprocessor_cache.rs CACHED_ENV_VARS (used for the abstract pp key only)
 PROFILE_FLAGS = ['-ftest-coverage', '--coverage', '-fprofile-generate']
+RUST_UNHASHED_CARGO = ['CARGO_REGISTRIES_MYREG_INDEX', 'CARGO_REGISTRIES_MYREG_TOKEN', 'CARGO_REGISTRIES_CRATES_IO_PROTOCOL']
+BIG_BYTES = 48 * 1024 * 1024       # an object whose store takes noticeably longer than starting the next client
 RUST_READ_VAR = 'BUILD_TAG'           # units 1 and 2 of the rustc histories read it with option_env!; clients rarely set it
 SERVER_ENVS = [[], [['BUILD_TAG', 'nightly-1']], [['BUILD_TAG', 'release-7'], ['FOO', 'srv']], [['BUILD_ID', '9']], [['BUILD_TAG', '']]]
 XFILES = ['x0.cfg', 'x1.cfg', 'x2.cfg', 'x3.cfg']
@@ -143,7 +145,10 @@ def gen_plan(rng, tool, pp, cap, nreq, idle_timeout=0):
         if 'out' in kinds:
             c['out'] = fresh_out()
         if 'env' in kinds:
-            if tool == 'rustc' and rng.chance(1, 4):
+            if tool == 'rustc' and rng.chance(1, 3):
+                # cargo variables that are documented NOT to enter the key: registry configuration (tokens and the rest)
+                set_env(rng.choice(RUST_UNHASHED_CARGO), 'r%d' % rng.below(1000))
+            elif tool == 'rustc' and rng.chance(1, 4):
                 set_env(RUST_READ_VAR, 't%d' % rng.below(2))      # hashed for the crates that read it, unrelated for the others
             else:
                 set_env(rng.choice(UNRELATED_VARS), 'v%d' % rng.below(1000))
@@ -210,6 +215,20 @@ def gen_plan(rng, tool, pp, cap, nreq, idle_timeout=0):
                 steps.append({'op': 'delete_some', 'req': len(reqs), 'mask': rng.choice([0, 1, 2, 3])})
                 steps.append(json.loads(json.dumps(c)))
                 reqs.append(steps[-1])
+    if tool != 'rustc' and cap == HUGE and rng.chance(1, 5):
+        # a request whose STORE is slow (a big object), followed AT ONCE by the identical request, or by a graceful
+        # stop + start + the identical request: the response to the first one promises that its result is in the cache
+        c = new_compile(rng.below(NUNITS))
+        c.update({'bad': '', 'big': True, 'md': False, 'extra': [], 'dia': '', 'xfiles': [], 'sbl': []})
+        then = rng.choice(['repeat', 'stop'])
+        steps.append({'op': 'big_pair', 'then': then, 'c': c})
+        reqs.append(c)
+        if then == 'repeat':
+            reqs.append(c)
+            steps.append({'op': 'restart', 'senv': rng.choice(SERVER_ENVS)})
+        steps.append({'op': 'delete_some', 'req': len(reqs), 'mask': 0})
+        steps.append(json.loads(json.dumps(c)))
+        reqs.append(steps[-1])
     good = [j for j, c in enumerate(reqs) if not c['bad'] and not c.get('fault')]
     if tool != 'rustc' and good and rng.chance(1, 2):
         # a transient failure of the compiler probe: right after a restart the server's temp directory is missing while the
@@ -314,6 +333,7 @@ def kill_servers(port):
             pass
 
 
+UNIT_BIG_C = '#ifdef BIG\n__asm__(".section .rodata\\n.incbin \\"blob.bin\\"\\n.text");\n#endif\n'
 UNIT_SRC_C = ('#include "u%(u)d.h"\n#include "common.h"\n#ifdef BAD_PRE\n#include "missing.h"\n#endif\n#ifndef K\n#define K 0\n#endif\n'
               '#ifdef BAD_CC\nint broken = ;\n#endif\nint f%(u)d(int x) { return x * COMMON + U%(u)d + K + %(v)d; }\n')
 UNIT_HDR_C = '#define U%(u)d %(v)d\n'
@@ -374,6 +394,9 @@ class Runner:
             self.put('common.h', '#define COMMON 3\n')
             for i, f in enumerate(XFILES):
                 self.put(f, '# extra hash file %d\n' % i)
+            if any(s.get('big') or s.get('c', {}).get('big') for s in plan['steps']):
+                with open(os.path.join(self.ws, 'blob.bin'), 'wb') as fh:      # incompressible
+                    fh.write(os.urandom(BIG_BYTES))
 
     def put(self, rel, text):
         p = os.path.join(self.ws, rel)
@@ -386,7 +409,7 @@ class Runner:
             self.put('l%d.rs' % u, UNIT_SRC_RS % {'u': u, 'v': self.ver[(u, 'src')] * 7 + self.ver[(u, 'hdr')]}
                      + (UNIT_READS_RS if u >= 1 else ''))
         else:
-            self.put('u%d.c' % u, UNIT_SRC_C % {'u': u, 'v': self.ver[(u, 'src')]})
+            self.put('u%d.c' % u, UNIT_SRC_C % {'u': u, 'v': self.ver[(u, 'src')]} + UNIT_BIG_C)
             self.put('u%d.h' % u, UNIT_HDR_C % {'u': u, 'v': self.ver[(u, 'hdr')]})
 
     def sc(self, args, extra_env=None, timeout=120):
@@ -441,6 +464,15 @@ class Runner:
     def next_senv(self):
         self.nstart = getattr(self, 'nstart', 0) + 1
         return SERVER_ENVS[(self.nstart + len(self.plan['steps'])) % len(SERVER_ENVS)]
+
+    def compile_steps(self):
+        out = []
+        for s in self.plan['steps']:
+            if s['op'] == 'compile':
+                out.append(s)
+            elif s['op'] == 'big_pair':
+                out += [s['c']] * (2 if s['then'] == 'repeat' else 1)
+        return out
 
     def reads(self, c):
         return [RUST_READ_VAR] if (self.tool == 'rustc' and c['unit'] >= 1) else []
@@ -504,7 +536,7 @@ class Runner:
 
     @staticmethod
     def defs(c):
-        return c['defs'] + {'': [], 'pre': ['-DBAD_PRE'], 'cc': ['-DBAD_CC']}[c.get('bad', '')]
+        return c['defs'] + {'': [], 'pre': ['-DBAD_PRE'], 'cc': ['-DBAD_CC']}[c.get('bad', '')] + (['-DBIG'] if c.get('big') else [])
 
     def outputs(self, c):
         u = c['unit']
@@ -614,7 +646,7 @@ class Runner:
         if c.get('xfiles'):
             env = env + [('SCCACHE_EXTRAFILES', self.extrafiles_var(c))]      # itself not an allow-listed variable
         ppkey = []
-        if self.plan['pp'] and not c.get('md'):          # -MD is "too hard" for preprocessor-cache mode
+        if self.plan['pp'] and not c.get('md') and not c.get('big'):   # -MD / .incbin are "too hard" for preprocessor-cache mode
             henv = sorted((k, v) for k, v in env if k in PP_ALLOW)
             ppkey = [h64(b'ppkey', c['opt'], json.dumps(defs), json.dumps(c['extra']), c.get('dia', ''), json.dumps(henv), self.keyed_out(c),
                          json.dumps(c.get('sbl', [])), json.dumps(xdig), 'u%d.c' % u, srcs[0]).to_bytes(8, 'big')]
@@ -707,8 +739,67 @@ class Runner:
                         events.append(['delete', f.encode()])
                         obs.append({'op': 'delete', 'entries': self.entries()})
                     continue
+                if op == 'big_pair':
+                    c = st['c']
+                    ident = self.identity(c)
+                    outs = self.outputs(c)
+                    argv, cenv = [self.cc] + self.argv(c), self.client_env(c)
+                    if self.plan.get('idle_timeout'):
+                        self.sync_server(events, obs)
+                    ents0 = self.entries()
+                    s0 = self.stats()
+                    self.take_log()
+                    rca, _, erra = self.sc(argv, cenv)
+                    if st['then'] == 'repeat':
+                        rcb, _, errb = self.sc(argv, cenv)                  # at once: nothing in between
+                        s1 = self.stats()
+                    else:
+                        rcs, _, _ = self.sc(['--stop-server'])              # at once: a graceful stop
+                        if rcs != 0:
+                            kill_servers(self.port)
+                    compiled, pre = self.classify_log(self.take_log())
+                    ents1 = self.entries()
+                    new = [k for k in ents1 if k not in ents0]
+                    size = ents1[new[0]] if len(new) == 1 else 0
+                    shas = {p: sha(os.path.join(self.ws, p)) for _, p, _ in outs}
+                    roles = [r.encode() for r, _, _ in outs]
+                    ta = tag + 1
+                    saved[ta] = {role: shas[p] for role, p, _ in outs}
+                    produced[ta] = [p for _, p, _ in outs]
+                    base = {'op': 'compile', 'outputs': [(r, p) for r, p, _ in outs], 'shas': shas, 'entries': ents1, 'new': new,
+                            'stderr': ''}
+                    if st['then'] == 'repeat':
+                        d = {k: s1[k] - s0[k] for k in s0}
+                        tb = tag + 2
+                        tag += 2
+                        produced[tb] = produced[ta]
+                        obs.append(dict(base, tag=ta, rc=rca, kind='miss' if d['cache_misses'] >= 1 else 'other:' + json.dumps(d),
+                                        compiled=min(compiled, 1), pre=min(pre, 1), stored=min(d['cache_writes'], 1)))
+                        events.append(self.abstract(c, ta, [1, 1, 1, size, roles]))
+                        obs.append(dict(base, tag=tb, rc=rcb,
+                                        kind='hit' if (d['cache_hits'], d['cache_misses']) == (1, 1) else 'miss',
+                                        compiled=max(compiled - 1, 0), pre=max(pre - 1, 0), stored=max(d['cache_writes'] - 1, 0)))
+                        events.append(self.abstract(c, tb, [1, 1, 1, size, roles]))
+                        if rca == 0 and ((d['cache_hits'], d['cache_misses']) != (1, 1) or compiled != 1 or rcb != 0):
+                            viol.append('step %d (requests %d and %d): the identical request issued right after the first one had '
+                                        'returned successfully was not served from the cache (hits+%d misses+%d, %d compile steps, '
+                                        'exit %d)' % (si, ta, tb, d['cache_hits'], d['cache_misses'], compiled, rcb))
+                    else:
+                        tag += 1
+                        obs.append(dict(base, tag=ta, rc=rca, kind='miss' if compiled else 'other', compiled=min(compiled, 1),
+                                        pre=min(pre, 1), stored=1 if len(new) == 1 else 0))
+                        events.append(self.abstract(c, ta, [1, 1, 1, size, roles]))
+                        if rca == 0 and compiled and len(new) != 1:
+                            viol.append('step %d (request %d): the request returned successfully, the server was then stopped with '
+                                        '--stop-server, and its result is not in the cache directory (entries before %d, after %d)'
+                                        % (si, ta, len(ents0), len(ents1)))
+                        self.start_server(events, obs, self.next_senv())
+                    if len(new) == 1:
+                        stored[ident] = (ta, new[0], c, {p: shas[p] for _, p, _ in outs})
+                        stored_all[ident] = (ta, new[0], c, stored[ident][3], ta)
+                    continue
                 if op == 'damage':
-                    cs = [s for s in self.plan['steps'] if s['op'] == 'compile'][st['req'] - 1]
+                    cs = self.compile_steps()[st['req'] - 1]
                     ident_d = self.identity(cs)       # the entry such a request would be served from NOW
                     ent = [stored_all[ident_d]] if ident_d in stored_all else []
                     f = ent[0][1] if ent else None
